@@ -1067,7 +1067,8 @@ def life_pipeline(run):
         k = (2, 4, 6)[i % 3]
         rej = [x for x in range(1, k + 1) if rnd.random() < 0.25] if cfgbits & 4 else []
         rcases.append({"op": "liferand", "k": k, "onServe": bool(cfgbits & 1), "onError": bool(cfgbits & 2), "onAccept": bool(cfgbits & 4),
-                       "onClose": bool(cfgbits & 8), "rejects": rej, "steps": [], "seed": rnd.randint(1, 1 << 30)})
+                       "onClose": bool(cfgbits & 8), "rejects": rej, "steps": [], "seed": rnd.randint(1, 1 << 30),
+                       "tcp": (i // 16) % 2 == 1})     # every other block of 16 configurations over a real loopback TCP listener
     # idle server shut down right away / from within OnServeFunc (start-up vs Shutdown)
     for i in range(24 if T else 8):
         rcases.append({"op": "liferand", "k": 0, "onServe": True, "onError": bool(i & 1), "onAccept": bool(i & 2), "onClose": bool(i & 4), "rejects": [],
@@ -1154,7 +1155,7 @@ def life_pipeline(run):
         return confirm(v)
 
     return vlib.finish(run, "model_checking", cov,
-                       ["the in-memory listener (net.Pipe) stands in for a TCP listener; 'the port no longer accepts' is observed as the listener having been closed",
+                       ["gated replay uses an in-memory listener (net.Pipe connections that, like TCP ones, report net.ErrClosed on a second Close); half of the free-running runs use a real loopback TCP listener",
                         "the count given to the accept callback may be the number of live connections at any instant between the accept loop's return from Accept and the callback",
                         "data races and crashes are observed by the Go race detector / the child process exit, not expressible in TLA+",
                         "a connection accepted but not yet served when the context is cancelled is not judged (DESIGN 2.6)"],
